@@ -72,7 +72,7 @@ def gen(rng, strategy, signal_case=False):
         w = rng.choice([2, 4, 6])
         pat = [(i // w) % 2 == 0 for i in range(n)]
     elif kind == "late":
-        a = rng.randrange(1, n)
+        a = rng.randrange(1, n) if not directed else rng.randrange(n // 2, n - 1)
         pat = [i >= a for i in range(n)]
     elif kind == "early":
         a = rng.randrange(1, n)
@@ -126,6 +126,8 @@ def gen(rng, strategy, signal_case=False):
         if directed:
             a, b_ = next((i for i in range(n) if pat[i]), 0), n
         low = round(min(gc_max, max(gc_max * rng.choice([0.1, 0.5, 0.8]), (max(fl_vals) if fixed else 0) + rng.choice([2, 4]))), 2)
+        if directed:
+            low = round(min(gc_max, max(1.0, gc_max * 0.1, (max(fl_vals) if fixed else 0) + 1)), 2)
         ev["grid_operator_signals"].append({"signal_time": iso(start), "start_time": iso(start + dt * a), "grid_connector_id": "GC1",
                                             "max_power": low})
         if b_ < n and rng.random() < 0.6:
